@@ -141,6 +141,8 @@ def oracle_fault(d, known_hang_libs=()):
             executed = [l for l in d.get("log", []) if l.startswith("%s:%s:" % (c["kind"], c["who"]))]
             if c["phase"] == "inflight" and c["kind"] == "add" and executed and executed[0].split(":")[-1] == str(c.get("value")):
                 continue
+            if c["phase"] == "inflight" and c["kind"] == "unit" and executed:
+                continue
             p.append("C20: %s %s call of client %s returned normally (value %s) although the actor was dead: silently discarded / fabricated" % (
                 c["phase"], c["kind"], c["who"], c.get("value")))
     return p, known
@@ -152,6 +154,19 @@ def oracle_consume(d):
         return ["harness: " + d["error"]]
     p = []
     h = d["handles"]
+    pend = d.get("pending", 0)
+    if h == 1 and pend:
+        # the consuming call was issued while `pend` calls were still queued behind a parked actor: all of them are applied
+        # first, then the actor is handed over exactly once with the state those calls produced
+        want = ["tick:0:0", "tick:0:1", "add:0:2:5:6", "hold"] + ["tick:9:%d" % i for i in range(pend)]
+        la = d["log_after"]
+        if d["fin_outcome"] != "returned" or d["result"] is None:
+            p.append("C09/C01: sole owner with %d queued calls: fin(7) gave %s/%s (%s), expected the value of the sequential run" % (pend, d["fin_outcome"], d["result"], d.get("fin_msg")))
+        if la != want + ["fin:7:%s" % d["result"], "drop"]:
+            p.append("C09/C01: log %s is not the sequential run %s + [fin:7:<returned value>, drop]" % (la, want))
+        if d["drops_after_fin"] != 1:
+            p.append("C09/C04: actor dropped %s times after the hand-over" % d["drops_after_fin"])
+        return p
     if h == 1:
         if d["fin_outcome"] != "returned" or d["result"] != 13:
             p.append("C09: sole owner: fin(7) gave %s/%s, expected Some(13) (all earlier calls applied first)" % (d["fin_outcome"], d["result"]))
@@ -176,6 +191,8 @@ def oracle_family(d):
         p.append("C10: a mutating call overlapped another call of a different member")
     if not d["per_member_order_ok"] or not d["all_bumps_applied"]:
         p.append("C10: member calls not applied in that member's issue order / lost")
+    if not d.get("note_order_ok", True):
+        p.append("C10/C02: calls issued one after another through one member handle were not applied in that order: %s (expected 8 notes, then mark)" % d.get("note_log"))
     if d["ctor_runs"] != 1:
         p.append("C10: %d constructor runs for one family" % d["ctor_runs"])
     if d["final"] != 100:
